@@ -16,7 +16,9 @@ RULE = ('for each of arvi/evi/gci/nbr/nbr2/ndvi/ndmi/savi/sipi/ebbi and true_col
         'uint8..uint64/int8..int64/float32/float64 (also mixed per band) drawn from the classes small integers, signed '
         '(zero sums), zeros, equal bands, values >= 2^24 / near the dtype limits, dyadic fractions, random floats, '
         'NaN/+-inf/-0.0/tiny/huge cells; parameter grids for soil_factor (incl. +-1, 0, outside [-1,1], NaN), c1, c2, '
-        'gain (incl. 0, negative), nodata/c/th; positional and keyword calls; band-swap and power-of-two-scaling '
+        'gain (incl. 0, negative), nodata/c/th; positional and keyword calls; the same stream Dask-backed (every dtype, single / '
+        '1-cell / uneven chunks, mixed chunkings per band, computed and compared exactly like the NumPy result); a repeated call '
+        'and a swapped-band call on the SAME band objects (in-place writes show there); band-swap and power-of-two-scaling '
         'metamorphic pairs on the implementation. A case is non-trivial when it has >= 1 cell with all bands finite; '
         'distinct by JSON encoding.')
 TRUSTED = [
@@ -32,7 +34,7 @@ TRUSTED = [
     'square root in the exact instance is an abstract function (Section variable)',
 ]
 ASSUMPTIONS = [
-    'NumPy backend (Dask/CuPy equality is C01)',
+    'NumPy and Dask(NumPy) backends; the model is the NumPy kernel, a Dask result must equal it (CuPy not available here)',
     'parameters c1, c2, soil_factor, gain, nodata, c, th are Python ints/floats; integer parameters are small enough to be exact doubles',
     'true_color nodata values are float32-representable when the red raster is float32 (NumPy compares a float32 array against '
     'float32(nodata)); integer rasters handed to true_color are below 2^53',
@@ -429,9 +431,45 @@ def da(a):
     return xr.DataArray(a, dims=['y', 'x'])
 
 
-def call_index(ms, case):
+def wrap_dask(a, chunks):
+    import dask.array as dsk
+    ch = tuple(tuple(c) if isinstance(c, (list, tuple)) else c for c in chunks)
+    return dsk.from_array(a, chunks=ch)
+
+
+def split_sizes(rng, n):
+    out = []
+    left = n
+    while left > 0:
+        k = rng.randint(1, max(1, min(3, left)))
+        out.append(k)
+        left -= k
+    return out
+
+
+def gen_chunks(rng, rows, cols, style):
+    if style == 'single':
+        return [rows, cols]
+    if style == 'cells':
+        return [1, 1]
+    return [split_sizes(rng, rows), split_sizes(rng, cols)]
+
+
+def build_arrays(case):
+    """the band objects handed to the library: NumPy-backed, or Dask-backed when case['chunks'] (one entry per band) is set"""
+    arrs = []
+    for k, (b, dt) in enumerate(zip(case['bands'], case['dtypes'])):
+        a = to_array(b, dt)
+        if case.get('chunks') is not None:
+            a = wrap_dask(a, case['chunks'][k])
+        arrs.append(da(a))
+    return arrs
+
+
+def call_index(ms, case, arrs=None):
     fn = case['fn']
-    arrs = [da(to_array(b, dt)) for b, dt in zip(case['bands'], case['dtypes'])]
+    if arrs is None:
+        arrs = build_arrays(case)
     f = getattr(ms, fn)
     params = case.get('params', {})
     with np.errstate(all='ignore'):
@@ -524,8 +562,9 @@ def compare_model(ctx, pending):
 
 def run_index_case(ctx, ms, case, pending, do_oracle=True):
     fn = case['fn']
+    arrs = build_arrays(case)
     try:
-        res = call_index(ms, case)
+        res = call_index(ms, case, arrs)
         out = out_lists(res)
         err = None
     except ValueError as e:
@@ -554,10 +593,50 @@ def run_index_case(ctx, ms, case, pending, do_oracle=True):
                 ctx.violation('oracle', '%s: result dtype %s is not single precision' % (fn, np.asarray(res.data).dtype), case)
                 return None
             oracle_index(ctx, case, out)
+            repeated_call(ctx, ms, case, arrs, out)
     if len(case['bands'][0]) and len(case['bands'][0][0]):
         flat = err if err else [v for r in out for v in r]
         pending.append((model_line(case), flat, case, fn))
     return out
+
+
+def repeated_call(ctx, ms, case, arrs, out):
+    """the index is a function of the band VALUES: calling again with the very same band objects (and, for the normalised
+    differences, with the same objects swapped) must give the same (negated) result — an in-place write into a band shows here"""
+    fn = case['fn']
+    if 'float32' not in case['dtypes'] and ctx.rng.random() < 0.7:
+        return
+    try:
+        o2 = out_lists(call_index(ms, case, arrs))
+    except Exception as e:
+        ctx.violation('oracle', '%s raised %s on a second call with the same band objects' % (fn, type(e).__name__), dict(case, repeat=True))
+        return
+    for r1, r2 in zip(out, o2):
+        for a, b in zip(r1, r2):
+            if not same_f(a, b):
+                ctx.violation('oracle', '%s: a second call with the SAME band objects gave %r where the first gave %r (bands modified in place?)'
+                              % (fn, b, a), dict(case, repeat=True, got=b, original=a))
+                return
+    if fn in ND:
+        sw = dict(case, style='pos')
+        try:
+            o3 = out_lists(call_index(ms, sw, [arrs[1], arrs[0]]))
+        except Exception as e:
+            ctx.violation('oracle', '%s raised %s on the swapped band objects' % (fn, type(e).__name__), dict(case, repeat=True))
+            return
+        for r1, r3 in zip(out, o3):
+            for a, b in zip(r1, r3):
+                if not same_f(a, -b):
+                    ctx.violation('oracle', '%s: swapping the same band objects after a first call gave %r, expected the negation of %r'
+                                  % (fn, b, a), dict(case, repeat=True, swapped_objects=True, got=b, original=a))
+                    return
+    # the band objects still hold the values they were built from
+    for k, (arr, b) in enumerate(zip(arrs, case['bands'])):
+        cur = np.asarray(arr.data)
+        ref = to_array(b, case['dtypes'][k])
+        if cur.shape != ref.shape or not np.array_equal(cur, ref, equal_nan=cur.dtype.kind == 'f'):
+            ctx.violation('oracle', '%s: band #%d was modified by the call' % (fn, k), dict(case, repeat=True, band=k))
+            return
 
 
 def nontrivial(case):
@@ -576,7 +655,8 @@ def metamorphic(ctx, ms, case, out):
     if out is None:
         return
     if fn in ND:
-        sw = dict(case, bands=[case['bands'][1], case['bands'][0]], dtypes=[case['dtypes'][1], case['dtypes'][0]])
+        sw = dict(case, bands=[case['bands'][1], case['bands'][0]], dtypes=[case['dtypes'][1], case['dtypes'][0]],
+                  chunks=None if case.get('chunks') is None else [case['chunks'][1], case['chunks'][0]])
         try:
             o2 = out_lists(call_index(ms, sw))
         except Exception as e:
@@ -653,7 +733,7 @@ def gen_true_color(rng):
 def run_true_color(ctx, ms, case, pending):
     dt = case['dtypes'][0]
     p = case['params']
-    arrs = [da(to_array(b, dt)) for b in case['bands']]
+    arrs = build_arrays(case)
     try:
         with np.errstate(all='ignore'):
             res = ms.true_color(*arrs, **p)
@@ -723,20 +803,62 @@ def run(ctx, model=True):
         for _ in range(per_fn):
             dts, kind, bands = gen_bands(rng, len(ARGS[fn]))
             cases.append(dict(fn=fn, dtypes=dts, kind=kind, bands=bands, params=gen_params(rng, fn)))
+    # Dask-backed stream: every dtype incl. all integer dtypes and float32, single / 1-cell / uneven chunks, mixed per band
+    styles = ['single', 'cells', 'uneven']
+    k = 0
+    for fn in ALL_FN:
+        nbands = len(ARGS[fn])
+        dts_cycle = ALL_DT + ['float32']
+        for j in range(4 if ctx.quick() else 300):
+            dts, kind, bands = gen_bands(rng, nbands)
+            while not (len(bands[0]) and len(bands[0][0])):
+                dts, kind, bands = gen_bands(rng, nbands)
+            if j < 2:                     # walk through every dtype deterministically across the functions
+                dt = dts_cycle[k % len(dts_cycle)]
+                k += 1
+                kind = rng.choice(KINDS_FLT if dt.startswith('float') else KINDS_INT)
+                rows_, cols_ = len(bands[0]), len(bands[0][0])
+                dts = [dt] * nbands
+                bands = [[[gen_value(rng, dt, kind) for _ in range(cols_)] for _ in range(rows_)] for _ in range(nbands)]
+            rows_, cols_ = len(bands[0]), len(bands[0][0])
+            st = styles[(j + k) % 3]
+            if rng.random() < 0.4:
+                chunks = [gen_chunks(rng, rows_, cols_, rng.choice(styles)) for _ in range(nbands)]     # mixed per band
+            else:
+                ch = gen_chunks(rng, rows_, cols_, st)
+                chunks = [ch for _ in range(nbands)]
+            cases.append(dict(fn=fn, dtypes=dts, kind=kind, bands=bands, params=gen_params(rng, fn), chunks=chunks))
+    # savi / evi with a NEGATIVE denominator (nir + red < -L): the guard is `!= 0`, not `> 0`
+    for L in [-0.5, 0.5, -1.0, 0.25]:
+        cases.append(dict(fn='savi', dtypes=['float64'] * 2, kind='fixed', params=dict(soil_factor=L),
+                          bands=[[[-3.0, -8.0, 1.0, -0.25]], [[-2.0, 1.0, -7.0, -0.25]]]))
+        cases.append(dict(fn='savi', dtypes=['int16'] * 2, kind='fixed', params=dict(soil_factor=L),
+                          bands=[[[-3, -8, 1, 0]], [[-2, 1, -7, -1]]]))
+    cases.append(dict(fn='evi', dtypes=['int32'] * 3, kind='fixed', params=dict(c1=6.0, c2=7.5, soil_factor=1.0, gain=2.5),
+                      bands=[[[-30, 2, 1]], [[-2, 1, -7]], [[1, 9, 3]]]))
     for case in cases:
         fn = case['fn']
         case['style'] = 'kw' if rng.random() < 0.5 else 'pos'
         case['exact'] = is_exact_class(case['bands'], case['params'])
         ctx.case(case, nontrivial=nontrivial(case))
-        ctx.count('%s/%s/%s' % (fn, case['dtypes'][0] if len(set(case['dtypes'])) == 1 else 'mixed', case['kind']))
+        ctx.count('%s%s/%s/%s' % ('dask:' if case.get('chunks') is not None else '', fn,
+                                  case['dtypes'][0] if len(set(case['dtypes'])) == 1 else 'mixed', case['kind']))
         out = run_index_case(ctx, ms, case, pending)
         if rng.random() < (0.5 if ctx.quick() else 0.7):
             metamorphic(ctx, ms, case, out)
     ntc = 150 if ctx.quick() else 5000
-    for _ in range(ntc):
+    ndask_tc = 16 if ctx.quick() else 600
+    for i in range(ntc + ndask_tc):
         case = gen_true_color(rng)
+        if i >= ntc:
+            rows_, cols_ = len(case['bands'][0]), len(case['bands'][0][0])
+            if rng.random() < 0.3:
+                case['chunks'] = [gen_chunks(rng, rows_, cols_, rng.choice(styles)) for _ in range(3)]
+            else:
+                ch = gen_chunks(rng, rows_, cols_, styles[i % 3])
+                case['chunks'] = [ch, ch, ch]
         ctx.case(case, nontrivial=nontrivial(case))
-        ctx.count('true_color/%s/%s' % (case['dtypes'][0], case['kind']))
+        ctx.count('%strue_color/%s/%s' % ('dask:' if case.get('chunks') is not None else '', case['dtypes'][0], case['kind']))
         run_true_color(ctx, ms, case, pending)
     if model:
         compare_model(ctx, pending)
